@@ -25,6 +25,9 @@ CTOL = 2e-4              # continuous time: solve_ivp at rtol = 1e-10 (observed 
 #   ["L", n, p, m, dt, A, B, C, D]                 StateSpace leaf (row-major rational tokens)
 #   ["S", q, kind]  ["A", p, m, [q...], dtype]
 #   ["neg", x] ["fb", sign, via, x, y] [mul|add|sub|div, x, y]
+#   optional: a 9th element of a "P" leaf = {name: default} read by the callables as
+#   `params.get(name, default)` (not declared in `params=`); a 6th element of "fb" = the dictionary
+#   passed as `feedback(other, sign, params=...)`
 # ----------------------------------------------------------------------------
 
 def poly_tokens(poly):
@@ -44,8 +47,11 @@ def env_tokens(env):
 def flatten(t):
     k = t[0]
     if k == "P":
-        _, n, m, p, dt, params, fs, hs = t
-        s = "P %d %d %d %s %s" % (n, m, p, dt, env_tokens(params))
+        _, n, m, p, dt, params, fs, hs = t[:8]
+        if len(t) > 8:
+            s = "Q %d %d %d %s %s %s" % (n, m, p, dt, env_tokens(params), env_tokens(t[8]))
+        else:
+            s = "P %d %d %d %s %s" % (n, m, p, dt, env_tokens(params))
         for f in fs:
             s += " " + poly_tokens(f)
         if hs is None:
@@ -65,6 +71,8 @@ def flatten(t):
     if k == "neg":
         return flatten(t[1]) + " neg"
     if k == "fb":
+        if len(t) > 5:
+            return flatten(t[3]) + " " + flatten(t[4]) + " fbp " + t[1] + " " + env_tokens(t[5])
         return flatten(t[3]) + " " + flatten(t[4]) + " fb " + t[1]
     if k in BIN:
         return flatten(t[1]) + " " + flatten(t[2]) + " " + k
@@ -143,8 +151,10 @@ def num_value(q, kind):
     return float(q)
 
 
-def make_fn(polys):
-    """Python callable `(t, x, u, params) -> ndarray` of a list of polynomials"""
+def make_fn(polys, defaults=None):
+    """Python callable `(t, x, u, params) -> ndarray` of a list of polynomials; a parameter named in
+    `defaults` is read as `params.get(name, default)`, any other as `params[name]`"""
+    dflt = {a: float(Fraction(v)) for a, v in (defaults or {}).items()}
     comp = []
     for poly in polys:
         terms = []
@@ -173,6 +183,8 @@ def make_fn(polys):
                         val = x[i]
                     elif kind == "u":
                         val = u[i]
+                    elif i in dflt:
+                        val = params.get(i, dflt[i])
                     else:
                         val = params[i]
                     for _ in range(e):
@@ -183,13 +195,15 @@ def make_fn(polys):
     return fn
 
 
-def build(t):
+def combine(t, sub):
+    """the object of node `t`; `sub(i)` gives the object of the child `t[i]`"""
     k = t[0]
     if k == "P":
-        _, n, m, p, dt, params, fs, hs = t
+        _, n, m, p, dt, params, fs, hs = t[:8]
+        dflt = t[8] if len(t) > 8 else None
         prm = {a: float(Fraction(v)) for a, v in params.items()}
-        upd = make_fn(fs) if n > 0 else None
-        out = make_fn(hs) if hs is not None else None
+        upd = make_fn(fs, dflt) if n > 0 else None
+        out = make_fn(hs, dflt) if hs is not None else None
         kw = dict(inputs=m, outputs=p, dt=dt_value(dt), params=prm)
         if n > 0:
             kw["states"] = n
@@ -206,14 +220,16 @@ def build(t):
             return np.array([int(v) for v in vals]).reshape(t[1], t[2])
         return np.array([float(v) for v in vals]).reshape(t[1], t[2])
     if k == "neg":
-        return -build(t[1])
+        return -sub(1)
     if k == "fb":
-        a, b = build(t[3]), build(t[4])
+        a, b = sub(3), sub(4)
         sign = num_value(t[1], "float" if Fraction(t[1]).denominator != 1 else "int")
+        if len(t) > 5:
+            return a.feedback(b, sign, params={nm: float(Fraction(v)) for nm, v in t[5].items()})
         if t[2] == "func":
             return ct.feedback(a, b, sign)
         return a.feedback(b, sign)
-    a, b = build(t[1]), build(t[2])
+    a, b = sub(1), sub(2)
     if k == "add":
         return a + b
     if k == "sub":
@@ -223,6 +239,52 @@ def build(t):
     if k == "div":
         return a / b
     raise ValueError(k)
+
+
+class Objs:
+    """the Python objects of a system tree, by path (tuple of child indices); every object is
+    created once, on first use (children first), so the objects inside an interconnection are the
+    very objects a call on a sub-tree works with"""
+
+    def __init__(self, tree):
+        self.tree = tree
+        self.memo = {}
+
+    def node(self, path):
+        t = self.tree
+        for i in path:
+            t = t[i]
+        return t
+
+    def get(self, path=()):
+        path = tuple(path)
+        if path not in self.memo:
+            self.memo[path] = combine(self.node(path), lambda i: self.get(path + (i,)))
+        return self.memo[path]
+
+
+def build(t):
+    return Objs(t).get(())
+
+
+def subtree(t, path):
+    for i in path:
+        t = t[i]
+    return t
+
+
+def sys_paths(t, path=()):
+    """paths of the nodes that are non-StateSpace I/O system objects (polynomial leaves, operator
+    results)"""
+    out = [] if t[0] in ("L", "S", "A") else [list(path)]
+    for i in children(t):
+        out += sys_paths(t[i], path + (i,))
+    return out
+
+
+def param_names(t):
+    """names of the parameters the callables below `t` read (declared or `params.get`)"""
+    return sorted({k for lf in leaves(t) if lf[0] == "P" for k in list(lf[5]) + (list(lf[8]) if len(lf) > 8 else [])})
 
 
 def classify_exc(e):
@@ -357,7 +419,11 @@ class C08(Family):
         "2^-s (2^-210 … 2^66) are judged on the values times 2^s (theorems simulate_smul / ic2_homog for the model side); "
         "likewise a power-of-two scaling of the time grid when the maps do not use t",
         "continuous time: solve_ivp (RK45 / DOP853, rtol = 1e-10, atol = 1e-13 at the signal level) is within "
-        "2e-4 of the exact response relative to its largest value (observed <= 1.1e-7 on 1300 cases)"]
+        "2e-4 of the exact response relative to its largest value (observed <= 1.1e-7 on 1300 cases)",
+        "call histories: the only state an I/O-system object carries between calls is `_current_params` "
+        "(modelled by PObj; theorems update_params_history, call_history, update_params_functional show that "
+        "the history-free model the driver executes is what every call must give); the omitted arguments of "
+        "input_output_response are the documented defaults inputs = 0, initial_state = 0"]
     rule = ("discrete-time polynomial systems (degree <= 2, parameters, time dependence), StateSpace "
             "leaves, scalar/array gains, combined by * + - / neg feedback (depth <= 2/3, non-square "
             "shapes); inputs as scalars, 1-D/2-D arrays, lists of lists, mixed lists; initial states as "
@@ -370,9 +436,17 @@ class C08(Family):
             "level, 1/64 … 2^-20 for polynomial maps), timebase None; operating points of systems with "
             "timebase None in all three branches and square index-list problems in every timebase; "
             "continuous-time responses (dt = 0 / None) of interconnections with linear maps, t_eval inside, "
-            "unequally spaced time points, signal levels as above.  Non-trivial: simulation with >= 3 steps "
+            "unequally spaced time points, signal levels as above.  Call histories on shared objects (2-4 calls "
+            "of input_output_response / linearize / dynamics / output / __call__ on an interconnection, on inner "
+            "interconnections and on the subsystem objects themselves, with and without a params override; "
+            "parameters declared, read with params.get(name, default), or both; feedback(..., params=...); objects "
+            "built before the first call or on first use), every call compared with the history-free model.  "
+            "Argument forms: linearize at an OperatingPoint object / a state with the input positional, keyword, "
+            "None or omitted through the method and the function (maps of degree 2 with terms in u); "
+            "input_output_response with inputs / initial state omitted or given by keyword under either name.  "
+            "Non-trivial: simulation with >= 3 steps "
             "and a non-zero input or initial state; linearisation/operating point with >= 1 state; shape "
-            "case with an operator")
+            "case with an operator; history with an override followed by a call without one")
 
     force_n = None       # when set, every generated leaf has this many states
 
@@ -607,7 +681,7 @@ class C08(Family):
         return ["L", []]
 
     def call_params(self, rng, tree):
-        names = sorted({k for lf in leaves(tree) if lf[0] == "P" for k in lf[5]})
+        names = param_names(tree)
         if not names or rng.random() < 0.5:
             return {}
         return {nm: str(rng.choice([-2, 1, 2, 4])) for nm in names if rng.random() < 0.7}
@@ -978,6 +1052,242 @@ class C08(Family):
             case["X0"] = self.scale_vec(X0, s)
         return case
 
+    # ---- generation: call forms and call histories (second round of seeded changes) ------------
+    def u_dependent(self, rng, tree):
+        """give some polynomial leaf a term x_i·u_j or u_j² (so that the Jacobians depend on the input
+        at which the system is linearised)"""
+        cands = [lf for lf in leaves(tree) if lf[0] == "P" and lf[2] > 0]
+        if not cands:
+            return
+        lf = rng.choice(cands)
+        n, m = lf[1], lf[2]
+        polys = lf[6] + (lf[7] or [])
+        if not polys:
+            return
+        uj = "u%d" % rng.randrange(m)
+        other = rng.choice(["x%d" % i for i in range(n)] + [uj])
+        vs = [[uj, 2]] if other == uj else sorted([[other, 1], [uj, 1]])
+        poly = rng.choice(polys)
+        if not any(sorted(map(list, t[1])) == vs for t in poly):
+            poly.append([str(rng.choice([-1, 1, 2])), vs])
+
+    def undeclare(self, rng, tree, mode):
+        """turn declared parameters of the polynomial leaves into `params.get(name, default)` defaults
+        (mode "all": no leaf declares anything, "mix": per leaf all / some / none); a leaf without
+        parameters gets one multiplied into a term.  Returns the new tree."""
+        def walk(t):
+            if t[0] == "P":
+                lf = [t[0]] + [x for x in t[1:8]]
+                decl = dict(lf[5])
+                fs = [[[c, [list(v) for v in vs]] for c, vs in poly] for poly in lf[6]]
+                hs = None if lf[7] is None else [[[c, [list(v) for v in vs]] for c, vs in poly] for poly in lf[7]]
+                dflt = {}
+                if not decl and rng.random() < (0.75 if mode == "all" else 0.5):
+                    terms = [tm for poly in fs + (hs or []) for tm in poly]
+                    if terms:
+                        for nm in rng.sample(["a", "b", "c"], rng.choice([1, 1, 2])):
+                            tm = rng.choice(terms)
+                            if not any(v == "p" + nm for v, _ in tm[1]):
+                                tm[1].append(["p" + nm, 1])
+                                decl[nm] = str(rng.choice([-1, 2, 3, 1, -2]))
+                r = rng.random()
+                for nm in sorted(decl):
+                    if mode == "all" or r < 0.4 or (r < 0.7 and rng.random() < 0.5):
+                        dflt[nm] = decl.pop(nm)
+                return ["P", lf[1], lf[2], lf[3], lf[4], decl, fs, hs, dflt]
+            out = list(t)
+            for i in children(t):
+                out[i] = walk(t[i])
+            return out
+        return walk(tree)
+
+    def point_vec(self, rng, k, lo=-2, hi=2):
+        """a full-length point as array / list / (sometimes) short list"""
+        val = lambda: str(rng.randint(lo, hi))
+        r = rng.random()
+        if r < 0.45 or k == 0:
+            return ["A", [val() for _ in range(k)]]
+        if r < 0.85:
+            return ["L", [["s", val()] for _ in range(k)]]
+        return ["L", [["s", val()] for _ in range(rng.randint(1, k))]]
+
+    def case_lin_forms(self, rng, tier):
+        """the argument forms of `linearize`: the point as an OperatingPoint object (states, inputs)
+        or a state vector; the input given positionally / by keyword / as None / omitted; method
+        and function route.  Maps of degree 2 with terms in u, so that the Jacobians depend on the
+        input of the operating point."""
+        dt = rng.choice(["C", "C", "T", "D1", "N"])
+        tree = self.tree(rng, tier, dt, affine=rng.random() < 0.15)
+        if rng.random() < 0.8:
+            self.u_dependent(rng, tree)
+        p, n, m, _ = self.model_shape(tree)
+        case = {"kind": "lin", "sys": tree, "t": str(rng.choice([0, 0, 1, 2])),
+                "X0": self.point_vec(rng, n) if rng.random() < 0.8 else self.gen_vec(rng, n, lo=-2, hi=2),
+                "via": rng.choice(["method", "method", "func"]), "params": self.call_params(rng, tree)}
+        nz = lambda: self.point_vec(rng, m, lo=1, hi=3) if rng.random() < 0.7 else self.point_vec(rng, m)
+        if rng.random() < 0.7:
+            case["op"] = {"inputs": nz(), "outputs": rng.random() < 0.3}
+            r = rng.random()
+            if r < 0.55:
+                case["U0"], case["uform"] = ["N"], "omit"
+            elif r < 0.7:
+                case["U0"], case["uform"] = ["N"], rng.choice(["pos", "kw"])
+            else:
+                case["U0"], case["uform"] = nz(), rng.choice(["pos", "kw"])
+        else:
+            r = rng.random()
+            if r < 0.4:
+                case["U0"], case["uform"] = ["N"], "omit"
+            elif r < 0.55:
+                case["U0"], case["uform"] = ["N"], rng.choice(["pos", "kw"])
+            else:
+                case["U0"], case["uform"] = nz(), rng.choice(["pos", "kw", "kw"])
+        case["tform"] = rng.choice(["kw", "kw", "omit"]) if case["t"] == "0" else "kw"
+        return case
+
+    def case_resp_forms(self, rng, tier):
+        """the argument forms of `input_output_response`: inputs / initial state omitted (defaults 0),
+        given by keyword under either name (`inputs`/`U`, `initial_state`/`X0`, `timepts`/`T`,
+        `evaluation_times`/`t_eval`)"""
+        case = self.case_resp(rng, tier, dts=["T", "D1", "D1", "D1/2"])
+        forms = {"T": rng.choice(["pos", "pos", "timepts", "T"])}
+        nopos = forms["T"] != "pos"
+        forms["U"] = rng.choice(["omit", "inputs", "U"] + ([] if nopos else ["pos", "pos"]))
+        nopos = nopos or forms["U"] != "pos"
+        forms["X0"] = rng.choice(["omit", "initial_state", "X0"] + ([] if nopos else ["pos"]))
+        forms["te"] = rng.choice(["t_eval", "evaluation_times"])
+        if forms["U"] == "omit":
+            case["U"] = ["S", "0", "float"]
+        if forms["X0"] == "omit":
+            case["X0"] = ["S", "0", "float"]
+        case["forms"] = forms
+        return case
+
+    def step_args(self, rng, tier, sub, dt, kind):
+        """arguments of one call on the sub-tree `sub`"""
+        try:
+            p, n, m, _ = self.model_shape(sub)
+        except Exception:
+            p, n, m = 1, 1, 1
+        val = lambda: str(rng.randint(-3, 3))
+        if kind == "resp":
+            N = rng.choice([2, 3, 3, 4, 5])
+            T, h = self.grid(rng, dt, N)
+            teval = None
+            if rng.random() < 0.15:
+                teval = [T[0] + k * h for k in range(rng.randint(2, N + 1))]
+            return {"kind": "resp", "T": [tok(x) for x in T],
+                    "teval": None if teval is None else [tok(x) for x in teval],
+                    "U": self.gen_U(rng, m, N), "X0": self.gen_vec(rng, n)}
+        if kind == "lin":
+            return {"kind": "lin", "t": str(rng.choice([0, 0, 1, 2])), "X0": self.gen_vec(rng, n, lo=-2, hi=2),
+                    "U0": self.gen_vec(rng, m, lo=-2, hi=2) if rng.random() < 0.85 else ["N"],
+                    "via": rng.choice(["method", "func"])}
+        # `sys(u, params)` of a system without states evaluates the output map at t = 0
+        call = kind == "out" and n == 0 and rng.random() < 0.4
+        return {"kind": kind, "t": "0" if call else str(rng.choice([0, 0, 1, 2])), "x": [val() for _ in range(n)],
+                "u": [val() for _ in range(m)], "via": "call" if call else "method"}
+
+    def case_hist(self, rng, tier):
+        """a call history on one set of objects: an interconnection is built from subsystem objects;
+        calls (`input_output_response`, `linearize`, `dynamics`, `output`, `__call__`) are made on the
+        interconnection, on inner interconnections and on the subsystem objects themselves, with and
+        without a `params` override; every call must give what the same call gives on objects never
+        used before.  Subsystems declare their parameters (`params=`), read them with
+        `params.get(name, default)`, or both; `feedback(..., params=...)`."""
+        dt = rng.choice(["T", "D1", "D1", "D1/2", "D1", "C", "N"])
+        for _ in range(30):
+            affine = rng.random() < 0.3
+            if rng.random() < 0.25:
+                # a feedback loop at the root (it may be given `params=` below)
+                shape = self.rshape(rng)
+                tree = ["fb", rng.choice(["-1", "-1", "1", "2", "-1/2"]), "method",
+                        self.gen(rng, rng.choice([0, 1]), shape, dt, affine, direct=False),
+                        self.any_operand(rng, 1, (shape[1], shape[0]), dt, affine)]
+            else:
+                tree = self.gen(rng, rng.choice([1, 1, 2]), self.rshape(rng), dt, affine=affine)
+            if not (ops_in(tree) and any(lf[0] == "P" for lf in leaves(tree))):
+                continue
+            mode = rng.choice(["all", "mix", "mix", "keep", "keep"])
+            if mode != "keep":
+                tree = self.undeclare(rng, tree, mode)
+            names = param_names(tree)
+            if names:
+                break
+
+        def with_fb_params(t):
+            if t[0] == "fb" and rng.random() < 0.6:
+                given = {nm: str(rng.choice([-1, 2, 3, 4, 5])) for nm in names if rng.random() < 0.7}
+                t = [t[0], t[1], "method", t[3], t[4], given]
+            out = list(t)
+            for i in children(t):
+                out[i] = with_fb_params(t[i])
+            return out
+        tree = with_fb_params(tree)
+        paths = sys_paths(tree)
+        inner = [q for q in paths if q] or paths
+
+        def override(sub, force=False):
+            cand = param_names(sub) if rng.random() < 0.8 else names
+            if not cand:
+                return {}
+            d = {nm: rng.choice(["-2", "4", "5", "1/2", "-3"]) for nm in cand if rng.random() < 0.7}
+            if force and not d:
+                d = {rng.choice(cand): rng.choice(["-2", "4", "5"])}
+            return d
+
+        def kinds_for(sub):
+            ks = ["lin", "lin", "dyn", "dyn", "out"]
+            if dt not in ("C", "N") and tree_dt(sub) == dt:
+                ks += ["resp"] * 5
+            return ks
+
+        def step(path, prm):
+            sub = subtree(tree, path)
+            st = self.step_args(rng, tier, sub, dt, rng.choice(kinds_for(sub)))
+            st["path"] = list(path)
+            st["params"] = prm
+            return st
+
+        steps = []
+        r = rng.random()
+        if r < 0.6:
+            # the pattern: [call on an enclosing object], call with an override somewhere inside (or
+            # on the same object), the first call again (or another call on an enclosing object)
+            q = rng.choice(inner) if rng.random() < 0.8 else []
+            outer = q[:rng.randrange(len(q) + 1)] if (q and rng.random() < 0.9) else list(q)
+            # `outer` is a prefix of `q`; a prefix that is not an object path cannot occur (every
+            # ancestor of an object is an operator result)
+            first = step(outer, {}) if rng.random() < 0.6 else None
+            if first is not None:
+                steps.append(first)
+            steps.append(step(q, override(subtree(tree, q), force=True)))
+            if first is not None and rng.random() < 0.6:
+                steps.append({k: (list(v) if isinstance(v, list) else v) for k, v in first.items()})
+            else:
+                steps.append(step(outer, {}))
+        else:
+            for _ in range(rng.choice([2, 3, 3, 4])):
+                q = rng.choice(paths) if rng.random() < 0.6 else []
+                steps.append(step(q, override(subtree(tree, q)) if rng.random() < 0.5 else {}))
+        return {"kind": "hist", "sys": tree, "eager": rng.random() < 0.6, "steps": steps}
+
+    def extra2(self, rng, tier):
+        n = 240 if tier == "quick" else 3600
+        out = []
+        for i in range(n):
+            r = i % 12
+            try:
+                if r < 6:
+                    out.append(self.case_hist(rng, tier))
+                elif r < 10:
+                    out.append(self.case_lin_forms(rng, tier))
+                else:
+                    out.append(self.case_resp_forms(rng, tier))
+            except RecursionError:
+                continue
+        return out
+
     def extra(self, rng, tier):
         n = 288 if tier == "quick" else 7200
         out = []
@@ -1004,7 +1314,7 @@ class C08(Family):
 
     def generate(self, rng, tier):
         # the original streams first (same cases per seed as before), then the added input classes
-        return self.generate0(rng, tier) + self.extra(rng, tier)
+        return self.generate0(rng, tier) + self.extra(rng, tier) + self.extra2(rng, tier)
 
     def generate0(self, rng, tier):
         n = 720 if tier == "quick" else 18000
@@ -1068,11 +1378,54 @@ class C08(Family):
             {"kind": "op", "sys": ["mul", ["S", "2", "int"], P(1, 1, 1, [[["-2", [["x0", 1]]], ["1", [["u0", 1]]]]], [x(0)], "N")],
              "t": "0", "X0": full([0]), "U0": full([1]), "Y0": full([3]), "dx0": None,
              "iu": None, "iy": [0], "ix": None, "idx": [0], "params": {}},
+            # call history: a loop around a plant whose callable reads params.get('a', 1/2) (nothing
+            # declared anywhere); the loop, the plant alone with an override, the loop again
+            {"kind": "hist", "eager": True,
+             "sys": ["fb", "-1", "method",
+                     ["P", 2, 1, 1, "D1", {}, [[["1", [["pa", 1], ["x0", 1]]], ["1", [["x1", 1]]]],
+                                                [["-1/2", [["x0", 1]]], ["1", [["u0", 1]]]]], [x(0)], {"a": "1/2"}],
+                     gain5],
+             "steps": [{"kind": "resp", "path": [], "T": ["0", "1", "2", "3"], "teval": None,
+                        "U": ["A1", ["1", "-1", "2", "0"]], "X0": full([1, -2]), "params": {}},
+                       {"kind": "dyn", "path": [3], "t": "0", "x": ["1", "0"], "u": ["0"], "via": "method",
+                        "params": {"a": "4"}},
+                       {"kind": "resp", "path": [], "T": ["0", "1", "2", "3"], "teval": None,
+                        "U": ["A1", ["1", "-1", "2", "0"]], "X0": full([1, -2]), "params": {}},
+                       {"kind": "lin", "path": [], "t": "0", "X0": full([0, 0]), "U0": full([0]), "via": "func",
+                        "params": {}}]},
+            # the same objects, the override given to the interconnection, then none
+            {"kind": "hist", "eager": False,
+             "sys": ["mul", ["S", "3", "float"],
+                     ["P", 1, 1, 1, "D1", {}, [[["1", [["pk", 1], ["x0", 1]]], ["1", [["u0", 1]]]]], [x(0)], {"k": "2"}]],
+             "steps": [{"kind": "out", "path": [2], "t": "0", "x": ["1"], "u": ["0"], "via": "method", "params": {}},
+                       {"kind": "dyn", "path": [], "t": "0", "x": ["1"], "u": ["1"], "via": "method",
+                        "params": {"k": "5"}},
+                       {"kind": "dyn", "path": [], "t": "0", "x": ["1"], "u": ["1"], "via": "method", "params": {}}]},
+            # linearize(op) through the method with the input omitted: at (op.states, op.inputs)
+            {"kind": "lin", "sys": P(1, 1, 1, [[["-1", [["x0", 2]]], ["1", [["u0", 1], ["x0", 1]]]]],
+                                     [[["1", [["u0", 1], ["x0", 1]]]]], "C"),
+             "t": "0", "X0": ["A", ["1"]], "op": {"inputs": ["A", ["2"]], "outputs": False}, "U0": ["N"],
+             "uform": "omit", "tform": "omit", "via": "method", "params": {}},
+            {"kind": "lin", "sys": ["fb", "-1", "method",
+                                    P(1, 1, 1, [[["-1", [["x0", 1]]], ["1", [["u0", 2]]]]], [x(0)], "D1"), gain5],
+             "t": "0", "X0": ["L", [["s", "1"]]], "op": {"inputs": ["L", [["s", "3"]]], "outputs": True},
+             "U0": ["N"], "uform": "omit", "tform": "kw", "via": "method", "params": {}},
         ]
 
     # ---- execution ----------------------------------------------------------
+    @staticmethod
+    def step_case(case, st):
+        """one call of a history as a case of its own (on the sub-tree the call is made on)"""
+        c = {k: v for k, v in st.items() if k != "path"}
+        c["sys"] = subtree(case["sys"], st["path"])
+        return c
+
     def line(self, case):
         k = case["kind"]
+        if k == "hist":
+            # the model has no state: every call is answered from the sub-tree and the arguments alone
+            # (theorems update_params_history / call_history / update_params_functional)
+            return [self.line(self.step_case(case, st)) for st in case["steps"]]
         prog = flatten(case["sys"]) + " ;"
         if k == "shape":
             return "io shape " + prog
@@ -1083,6 +1436,15 @@ class C08(Family):
         if k == "cresp":
             # the composite's (A, B, C, D): forward differences with step 1 at the origin
             return " ".join(["io lin", prog, "0 S 0 S 0 1", env_tokens(case["params"])])
+        if k in ("dyn", "out"):
+            return " ".join(["io " + k, prog, case["t"], rats_tokens(case["x"]), rats_tokens(case["u"]),
+                             env_tokens(case["params"])])
+        if k == "lin" and "uform" in case:
+            # the argument forms are resolved by the model (`linPoint`)
+            X = ("O " + varg_tokens(case["X0"]) + " " + varg_tokens(case["op"]["inputs"])) if "op" in case \
+                else "V " + varg_tokens(case["X0"])
+            return " ".join(["io linp", prog, case["t"], X, varg_tokens(case["U0"]),
+                             case.get("eps") or "1/1000000", env_tokens(case["params"])])
         if k == "lin":
             return " ".join(["io lin", prog, case["t"], varg_tokens(case["X0"]),
                              varg_tokens(case["U0"]) if case["U0"][0] != "N" else "S 0",
@@ -1102,7 +1464,24 @@ class C08(Family):
 
     def _impl(self, case):
         k = case["kind"]
-        sys = build(case["sys"])
+        if k == "hist":
+            objs = Objs(case["sys"])
+            if case.get("eager"):
+                try:
+                    objs.get(())
+                except Exception:  # noqa  (the calls below report it)
+                    pass
+            res = []
+            for st in case["steps"]:
+                try:
+                    res.append(self._impl1(self.step_case(case, st), objs.get(st["path"])))
+                except Exception as e:  # noqa
+                    res.append({"err": classify_exc(e), "exc": "%s: %s" % (type(e).__name__, str(e)[:200])})
+            return {"steps": res}
+        return self._impl1(case, build(case["sys"]))
+
+    def _impl1(self, case, sys):
+        k = case["kind"]
         prm = {a: float(Fraction(v)) for a, v in case.get("params", {}).items()} or None
         if k == "shape":
             return {"ok": {"n": sys.nstates, "m": sys.ninputs, "p": sys.noutputs,
@@ -1112,8 +1491,20 @@ class C08(Family):
             kw = {}
             if case["teval"] is not None:
                 kw["t_eval"] = np.array([float(Fraction(x)) for x in case["teval"]])
-            resp = ct.input_output_response(sys, T, uarg_value(case["U"]), varg_value(case["X0"]),
-                                            params=prm, squeeze=False, **kw)
+            if "forms" in case:
+                fm = case["forms"]
+                args = [sys]
+                for nm, val in (("T", T), ("U", uarg_value(case["U"])), ("X0", varg_value(case["X0"]))):
+                    if fm[nm] == "pos":
+                        args.append(val)
+                    elif fm[nm] != "omit":
+                        kw[fm[nm]] = val
+                if "t_eval" in kw:
+                    kw[fm["te"]] = kw.pop("t_eval")
+                resp = ct.input_output_response(*args, params=prm, squeeze=False, **kw)
+            else:
+                resp = ct.input_output_response(sys, T, uarg_value(case["U"]), varg_value(case["X0"]),
+                                                params=prm, squeeze=False, **kw)
             N = len(resp.time)
             n, m, p = sys.nstates, sys.ninputs, sys.noutputs
             try:
@@ -1147,7 +1538,21 @@ class C08(Family):
             x0, u0 = varg_value(case["X0"]), varg_value(case["U0"])
             t = float(Fraction(case["t"]))
             kw = {"eps": float(Fraction(case["eps"]))} if case.get("eps") else {}
-            if case["via"] == "func":
+            if "uform" in case:
+                if "op" in case:
+                    ui = varg_value(case["op"]["inputs"])
+                    x0 = ct.OperatingPoint(x0, ui, outputs=np.zeros(sys.noutputs)) if case["op"]["outputs"] \
+                        else ct.OperatingPoint(x0, ui)
+                kw["params"] = prm
+                if case.get("tform") != "omit":
+                    kw["t"] = t
+                args = [x0]
+                if case["uform"] == "pos":
+                    args.append(u0)
+                elif case["uform"] == "kw":
+                    kw["ueq" if case["via"] == "func" else "u0"] = u0
+                lin = ct.linearize(sys, *args, **kw) if case["via"] == "func" else sys.linearize(*args, **kw)
+            elif case["via"] == "func":
                 lin = ct.linearize(sys, x0, u0, t=t, params=prm, **kw)
             else:
                 lin = sys.linearize(x0, u0, t=t, params=prm, **kw)
@@ -1155,6 +1560,17 @@ class C08(Family):
             return {"ok": {"n": n, "m": m, "p": p, "dt": exact.dt_canon(lin.dt),
                            "A": flat_f(lin.A, n, n), "B": flat_f(lin.B, n, m),
                            "C": flat_f(lin.C, p, n), "D": flat_f(lin.D, p, m)}}
+        if k in ("dyn", "out"):
+            t = float(Fraction(case["t"]))
+            x = np.array([float(Fraction(v)) for v in case["x"]])
+            u = np.array([float(Fraction(v)) for v in case["u"]])
+            if k == "dyn":
+                v = sys.dynamics(t, x, u, params=prm)
+            elif case.get("via") == "call":
+                v = sys(u, params=prm, squeeze=False)
+            else:
+                v = sys.output(t, x, u, params=prm)
+            return {"ok": {"v": [tok(fr(q)) for q in np.asarray(v, dtype=float).reshape(-1)]}}
         if k == "op":
             kw = {}
             for nm, key in (("iu", "input_indices"), ("iy", "output_indices"), ("ix", "state_indices"),
@@ -1172,6 +1588,10 @@ class C08(Family):
         raise ValueError(k)
 
     def parse_model(self, case, out):
+        if case["kind"] == "hist":
+            outs = out if isinstance(out, list) else [out]
+            return {"steps": [self.parse_model(self.step_case(case, st), o)
+                              for st, o in zip(case["steps"], outs)]}
         if out.startswith("err "):
             return {"err": out.split()[1]}
         tk = Tokens(out)
@@ -1201,6 +1621,8 @@ class C08(Family):
                 o[nm] = [tk.next() for _ in range(r * c)]
                 o["shape" + nm] = [r, c]
             return {"ok": o}
+        if k in ("dyn", "out"):
+            return {"ok": {"v": out.split()[1:]}}
         if k == "op":
             what = tk.next()
             if what != "sol":
@@ -1241,10 +1663,40 @@ class C08(Family):
         feat["ops"] = "+".join(sorted(set(ops_in(case["sys"])))) or "leaf"
         if case.get("scale"):
             feat["scaled"] = True
+        if "uform" in case:
+            feat["point"] = "OperatingPoint" if "op" in case else "state"
+            feat["input"] = ("None-" if case["U0"][0] == "N" else "") + case["uform"]
+            feat["route"] = case["via"]
+        if "forms" in case:
+            feat["forms"] = "+".join("%s:%s" % kv for kv in sorted(case["forms"].items()))
         return feat
+
+    def compare_hist(self, case, impl, model):
+        steps = case["steps"]
+        for j, st in enumerate(steps):
+            sc = self.step_case(case, st)
+            v = self.compare(sc, impl["steps"][j], model["steps"][j])
+            if v.status == AGREE:
+                continue
+            before = steps[:j]
+            feat = dict(v.features or {})
+            feat["op"] = "hist"
+            feat["call"] = st["kind"]
+            feat["history"] = ("after-override" if any(b["params"] for b in before) else
+                               "after-calls" if before else "first-call")
+            feat["params"] = bool(st["params"])
+            what = "call %d of %d (%s%s on the object at %s of the tree, after %s): " % (
+                j + 1, len(steps), st["kind"], " with params" if st["params"] else " without params",
+                st["path"] or "the root",
+                ", ".join("%s%s at %s" % (b["kind"], " with params %s" % b["params"] if b["params"] else "",
+                                          b["path"] or "root") for b in before) or "no other call")
+            return Verdict(v.status, what + v.detail, feat)
+        return Verdict(AGREE)
 
     def compare(self, case, impl, model):
         k = case["kind"]
+        if k == "hist":
+            return self.compare_hist(case, impl, model)
         if k == "op" and "ok" in model and model["ok"]["what"] != "sol":
             return Verdict(AGREE)      # singular / non-square root problem: nothing is claimed
         if k == "op" and model.get("err") == "illPosed":
@@ -1268,8 +1720,15 @@ class C08(Family):
             return Verdict(VIOLATES, "the implementation returns where the model raises %s" % model["err"],
                            self.features(case, "returns-" + model["err"], impl))
         if "err" in impl:
+            if k == "op" and impl["err"] == "illPosed" and ops_in(case["sys"]):
+                # scipy's root finder probes points of its own choosing, NaN among them once it sits on
+                # an exact root (0/0 in its step computation: thorough seed 3); at a NaN the loop test of
+                # _compute_static_io can never succeed.  The exception is a reported failure, not a
+                # wrong operating point; loop detection itself is checked by the resp/lin/dyn/out cases
+                return Verdict(AGREE)
             if impl["err"] == "illPosed" and "fb" in ops_in(case["sys"]) and (
-                    k == "lin" or (k == "resp" and not self.exact_regime(case, model))):
+                    k == "lin" or (k == "resp" and not self.exact_regime(case, model))
+                    or (k in ("dyn", "out") and "div" in ops_in(case["sys"]))):
                 # the loop test `ulist == new_ulist` is an exact float comparison: on non-dyadic data
                 # (eps = 1e-6 perturbations, 0.1 grids) a loop whose gains cancel exactly is reported
                 return Verdict(AGREE)
@@ -1318,6 +1777,20 @@ class C08(Family):
                                    " (signals at level 2^%d, values shown times 2^%d)" % (
                                        -case["scale"], case["scale"]) if case.get("scale") else ""),
                                self.features(case, "traj-" + nm, impl))
+            return Verdict(AGREE)
+        if k in ("dyn", "out"):
+            va = [Fraction(v) for v in a["v"]]
+            vb = [Fraction(v) for v in b["v"]]
+            what = "dynamics" if k == "dyn" else "output"
+            if len(va) != len(vb):
+                return Verdict(VIOLATES, "%s() returns %d values, the map has %d" % (what, len(va), len(vb)),
+                               self.features(case, k + "-shape", impl))
+            M = max([Fraction(1)] + [abs(v) for v in vb] + [abs(Fraction(v)) for v in case["x"] + case["u"]])
+            for j, (p, q) in enumerate(zip(va, vb)):
+                if abs(p - q) > TOL * M * M:
+                    return Verdict(VIOLATES, "%s(t, x, u%s) component %d: implementation %s, the map gives %s" % (
+                        what, ", params=%s" % case["params"] if case["params"] else "", j, float(p), float(q)),
+                        self.features(case, k + "-value", impl))
             return Verdict(AGREE)
         if k == "lin":
             for nm in "ABCD":
@@ -1471,10 +1944,17 @@ class C08(Family):
         return all(pow2(Fraction(v).denominator) for key in "xuy" for v in model["ok"][key])
 
     def nontrivial(self, case, model):
+        if case["kind"] == "hist":
+            # an override followed by a call without one, all calls answered by the model
+            st = case["steps"]
+            return all("ok" in mm for mm in model["steps"]) and any(
+                st[i]["params"] and not st[j]["params"] for i in range(len(st)) for j in range(i + 1, len(st)))
         if "ok" not in model:
             return False
         k = case["kind"]
         b = model["ok"]
+        if k in ("dyn", "out"):
+            return len(b["v"]) >= 1
         if k == "resp":
             return b["N"] >= 3 and any(Fraction(v) != 0 for v in b["u"] + b["x"][:b["n"]])
         if k == "lin":
@@ -1489,8 +1969,33 @@ class C08(Family):
 
     def stats(self, case, impl, model):
         t = case["sys"]
+        if case["kind"] == "hist":
+            steps = case["steps"]
+            decl = any(lf[0] == "P" and lf[5] for lf in leaves(t))
+            dflt = any(lf[0] == "P" and len(lf) > 8 and lf[8] for lf in leaves(t))
+            return {"kind": "hist", "root": t[0], "size": min(size(t), 10), "steps": len(steps),
+                    "timebase": tree_dt(t)[0],
+                    "calls": "+".join(sorted({s["kind"] for s in steps})),
+                    "parameters": ("declared+get" if decl and dflt else "declared" if decl else
+                                   "get-defaults" if dflt else "none"),
+                    "fb_params": "fbp" in flatten(t).split(),
+                    "override_then_plain": any(steps[i]["params"] and not steps[j]["params"]
+                                               for i in range(len(steps)) for j in range(i + 1, len(steps))),
+                    "sub_then_enclosing": any(
+                        steps[i]["params"] and not steps[j]["params"] and len(steps[j]["path"]) < len(steps[i]["path"])
+                        for i in range(len(steps)) for j in range(i + 1, len(steps))),
+                    "built": "first" if case.get("eager") else "on-use",
+                    "outcome": "ok" if all("ok" in mm for mm in model["steps"]) else "err"}
         st = {"kind": case["kind"], "root": t[0], "size": min(size(t), 10),
               "outcome": ("err:" + model["err"]) if "err" in model else "ok"}
+        if "uform" in case:
+            st["point"] = "OperatingPoint" if "op" in case else "state"
+            st["input"] = ("None-" if case["U0"][0] == "N" else "") + case["uform"]
+            st["route"] = case["via"]
+        if "forms" in case:
+            st["U_form"] = case["forms"]["U"]
+            st["X0_form"] = case["forms"]["X0"]
+            st["T_form"] = case["forms"]["T"]
         if case["kind"] != "shape":
             st["timebase"] = tree_dt(t)[0]
         if case.get("scale"):
@@ -1529,6 +2034,28 @@ class C08(Family):
     # ---- shrinking / search ----------------------------------------------------
     def shrink(self, case):
         t = case["sys"]
+        if case["kind"] == "hist":
+            st = case["steps"]
+            for j in range(len(st)):
+                if len(st) > 1:
+                    c = dict(case)
+                    c["steps"] = st[:j] + st[j + 1:]
+                    yield c
+            for j in range(len(st)):
+                if len(st[j]["params"]) > 1:
+                    for nm in st[j]["params"]:
+                        c = dict(case)
+                        c["steps"] = [dict(x) for x in st]
+                        c["steps"][j]["params"] = {a: v for a, v in st[j]["params"].items() if a != nm}
+                        yield c
+            # the calls all happen below one child: drop the rest of the tree
+            for i in children(t):
+                if all(x["path"][:1] == [i] for x in st) and t[i][0] not in ("S", "A", "L"):
+                    c = dict(case)
+                    c["sys"] = t[i]
+                    c["steps"] = [dict(x, path=x["path"][1:]) for x in st]
+                    yield c
+            return
         if case["kind"] == "resp":
             N = len(case["T"])
             if N > 2 and case["teval"] is None and case["U"][0] == "A2":
@@ -1550,7 +2077,7 @@ class C08(Family):
 
     def search(self, rng, case, tier):
         gen = {"resp": self.case_resp, "lin": self.case_lin, "op": self.case_op, "shape": self.case_shape,
-               "cresp": self.case_cresp}
+               "cresp": self.case_cresp, "hist": self.case_hist}
         return [gen[case["kind"]](rng, "quick") for _ in range(300)]
 
 
